@@ -94,7 +94,8 @@ def one_tree(tspec, acc, rnd, sample=False, forced=None):
             full = HUB.scan_events[-1]
             ev_full = full.evaluable
             depth_below = max([len(n.split(".")) - len(mpname.split(".")) for n in full.nodes if is_ancestor(mpname, n)] + [0])
-            ks = [forced["k"]] if forced else list(range(1, max(1, depth_below) + 1))
+            # k = 0 (everything collapses into module_path) is below the property's 1..depth range but costs nothing
+            ks = [forced["k"]] if forced else list(range(0, max(1, depth_below) + 1))
             for k in ks:
                 case = {"kind": "pair", "spec": tspec, "mp": mp_rel, "k": k}
                 HUB.case = case
